@@ -13,16 +13,18 @@ import (
 // ZZH_C19_evict: bounded history of submissions (symbolic nonces, so transactions may arrive
 // before their lower nonces and be parked first), pauses of the wall clock and runs of the age
 // rule RemoveAliveTimeoutTxs(50ms) on a pool that has not batched yet (follower / below batch
-// size). The clock is symbolic and paced: the solver decides which transactions are older than
-// the threshold at each run. The age rule may only drop transactions that are not ready; a ready
+// size). The clock is driven by the harness (1 microsecond per reading, pauses of 100 ms): which
+// transactions are older than the threshold at each run follows from where the pauses fall. The age rule may only drop transactions that are not ready; a ready
 // transaction (every nonce from the committed one up to its own is in the pool) stays
 // retrievable, the pending nonce keeps describing the content and everything ready is batched
 // when the pool is drained afterwards.
 // zz:also C18
 func ZZH_C19_evict() {
-	zz.PacedClock(1000000)
+	zz.PacedClock(1000)
 	batchSize := uint64(2)
-	m := &zzPoolModel{committed: append([]uint64{}, zzBase...), nextBatch: append([]uint64{}, zzBase...), lastHeight: 1}
+	// both accounts start at the same committed nonce, so that a parked nonce of one account can
+	// coincide with a ready nonce of the other
+	m := &zzPoolModel{committed: []uint64{5, 5}, nextBatch: []uint64{5, 5}, lastHeight: 1}
 	mp := zzNewPool(batchSize, m)
 	present := func(s *zzSubmitted) bool { return mp.GetTransaction(types.NewHashByStr(s.hash)) != nil }
 	// number of consecutive nonces from the committed one that are in the pool
@@ -47,19 +49,25 @@ func ZZH_C19_evict() {
 	}
 	nextHash := 0
 	evicted := map[*zzSubmitted]bool{}
+	// pre-state outside the step budget: account 0 already has 0..2 ready transactions in the pool
+	for r := zz.Choice("readyBefore", 3); r > 0; r-- {
+		h := zzHashes[nextHash]
+		tx := &pb.BxhTransaction{From: zzAccts[0], To: zzAccts[1], Nonce: m.committed[0] + uint64(nextHash), Timestamp: 1, TransactionHash: types.NewHashByStr(h)}
+		nextHash++
+		s := &zzSubmitted{acct: 0, nonce: tx.Nonce, hash: h, tx: tx}
+		m.subs = append(m.subs, s)
+		zzCheckBatch(m, mp.ProcessTransactions([]pb.Transaction{tx}, false, true), batchSize)
+		s.admitted = present(s)
+	}
 	for step := 0; step < k; step++ {
-		switch zz.Choice("op", 3) {
+		switch zz.Choice("op", 2) {
 		case 0:
 			if nextHash >= len(zzHashes) {
 				continue
 			}
-			ai := 0
-			if zz.Thorough() {
-				ai = zz.Choice("acct", 2)
-			}
-			nonce := zz.U64("nonce")
-			zz.Assume(nonce >= m.committed[ai])
-			zz.Assume(nonce <= m.committed[ai]+2)
+			ai := zz.Choice("acct", 2)
+			// (candidate nonces instead of a symbolic one: the symbolic dimension of this harness is the clock)
+			nonce := m.committed[ai] + uint64(zz.Choice("nonce", 4))
 			h := zzHashes[nextHash]
 			nextHash++
 			tx := &pb.BxhTransaction{From: zzAccts[ai], To: zzAccts[1-ai], Nonce: nonce, Timestamp: int64(1 + step), TransactionHash: types.NewHashByStr(h)}
@@ -67,9 +75,11 @@ func ZZH_C19_evict() {
 			m.subs = append(m.subs, s)
 			zzCheckBatch(m, mp.ProcessTransactions([]pb.Transaction{tx}, false, true), batchSize)
 			s.admitted = present(s)
-		case 1:
-			zz.Pause(int64(100 * time.Millisecond))
-		case 2:
+		case 1, 2:
+			// the age rule runs, either right away or after a pause longer than its threshold
+			if zz.Choice("pausedBefore", 2) == 1 {
+				zz.Pause(int64(100 * time.Millisecond))
+			}
 			ready := map[*zzSubmitted]bool{}
 			for _, s := range m.subs {
 				ready[s] = present(s) && s.nonce < m.committed[s.acct]+chain(s.acct)
